@@ -487,7 +487,7 @@ def programs(seed, n, extreme=False, compound=False, disj=True, unfounded=False,
                 if idx:
                     i = rng.choice(idx)
                     p[i] = ("fact", Fraction(rng.choice([0, 1])), p[i][2])
-            if extreme and rng.random() < 0.25:
+            if extreme and rng.random() < 0.4:
                 # an annotated disjunction whose three heads sum to exactly 1, with negative evidence on one of them
                 hs = [("z0", ()), ("z1", ()), ("z2", ())]
                 ws = rng.choice([(5, 3, 2), (2, 2, 6), (1, 8, 1), (4, 4, 2)])
@@ -498,10 +498,11 @@ def programs(seed, n, extreme=False, compound=False, disj=True, unfounded=False,
                 p.insert(4, ("rule", ("zz", ()), [(True, order[1])]))
                 p.append(("query", ("zz", ())))
                 p.append(("query", order[1]))
+                p.append(("query", order[0]))
                 p.append(("evidence", order[2], False))
             if extreme and rng.random() < 0.5:
                 # an annotated disjunction at the border: all heads 0.0, or one head 1.0 and the others 0.0
-                idx = [i for i, st in enumerate(p) if st[0] == "ad" and len(st[1]) >= 2]
+                idx = [i for i, st in enumerate(p) if st[0] == "ad" and len(st[1]) >= 2 and st[1][0][1][0] != "z0"]
                 if idx:
                     i = rng.choice(idx)
                     one = rng.randrange(len(p[i][1])) if rng.random() < 0.4 else len(p[i][1])
